@@ -414,6 +414,12 @@ var exitTemplates = []advTemplate{
 	{"exit:killed-child-gc-in-parent", func(g *core.Tape) string {
 		return `runtime.callcontext({kill = {cpu = 300}}, function() setmetatable({}, {__gc = function() emit("gc-ran") end}) while true do end end) pcall(collectgarbage) local junk = {} for i = 1, 200 do junk[i] = {} end emit("parent-goes-on") while true do end`
 	}},
+	{"exit:gc-pending-when-killed", func(g *core.Tape) string {
+		// finalisers still pending when the limit is reached: they belong to the killed context and
+		// must not run afterwards (when the context is left, when the runtime is closed)
+		fin := []string{`emit("gc-ran")`, `emit("gc-ran") while true do end`, `emit("gc-ran") local s = "x" while true do s = s .. s end`}[g.Choose(3)]
+		return `KEEP = setmetatable({}, {__gc = function() ` + fin + ` end}) setmetatable({}, {__gc = function() ` + fin + ` end}) while true do end`
+	}},
 	{"exit:xpcall-handler-spin-error", func(g *core.Tape) string {
 		return `xpcall(error, function() while true do end end) while true do end`
 	}},
@@ -478,7 +484,17 @@ func runQuotaAdv(ctx *core.RunCtx) {
 		runtime.ReadMemStats(&ms0)
 	}
 	start, cpu0 := time.Now(), procCPU()
-	r := execLimited(src, rt.RuntimeResources{Cpu: cpuL, Memory: memL}, core.ReplayTape(nil), false, nil)
+	root := wrap == 3 && g.Chance(1, 3)
+	var r *quotaRun
+	if root {
+		// the limits belong to the runtime itself; the host closes it after the kill
+		ctx.Count("fault.kill of the runtime's own context, then Close", 1)
+		r = execLimitedRoot(src, rt.RuntimeResources{Cpu: cpuL, Memory: memL})
+		cpuL += 3000000
+		memL += 3000000
+	} else {
+		r = execLimited(src, rt.RuntimeResources{Cpu: cpuL, Memory: memL}, core.ReplayTape(nil), false, nil)
+	}
 	wall, cpuT := time.Since(start), procCPU()-cpu0
 	runtime.ReadMemStats(&ms1)
 	alloc := ms1.TotalAlloc - ms0.TotalAlloc
@@ -489,6 +505,32 @@ func runQuotaAdv(ctx *core.RunCtx) {
 	ctx.Shape = core.HashString(src) ^ cpuL*31 ^ memL*131
 	where := fmt.Sprintf("template=%s wrap=%d kill={cpu=%d,memory=%d}", tpl.name, wrap, cpuL, memL)
 	sig := tpl.name
+	if root {
+		// the kill of the runtime's own context surfaces at the host as a termination (that is how the
+		// golua command sees it); what counts is that it happened, that nothing of the program ran
+		// after it - not even while the runtime was closed - and that the counters stayed below the limits
+		where += " (limits owned by the runtime, closed after the kill)"
+		if strings.Contains(r.outcome, "PANIC") && !strings.Contains(r.outcome, "PANIC(TERMINATION") {
+			ctx.Fail(prop, prop+".P", "panic:"+sig, "Go panic escaped: %s; %s", r.outcome, where)
+			return
+		}
+		if r.status != rt.StatusKilled {
+			ctx.Fail(prop, prop+".K3", "not-killed:"+sig, "a program that never ends on its own left the runtime's context with status %v, outcome %s; %s", r.status, r.outcome, where)
+			return
+		}
+		if r.termAt >= 0 && len(r.events) > r.termAt {
+			ctx.Fail(prop, prop+".K3", "event-after-termination:"+sig, "event %q emitted after the runtime's context was terminated; %s", r.events[r.termAt], where)
+			return
+		}
+		if r.used.Cpu >= cpuL || r.used.Memory >= memL {
+			ctx.Fail(prop, prop+".K2", "used-reaches-limit:"+sig, "used cpu=%d memory=%d; %s", r.used.Cpu, r.used.Memory, where)
+			return
+		}
+		if cpuT > 10*time.Second {
+			ctx.Fail(prop, prop+".K6", "slow:"+sig, "took %v of processor time; %s", cpuT, where)
+		}
+		return
+	}
 	if strings.Contains(r.outcome, "PANIC") {
 		ctx.Fail(prop, prop+".P", "panic:"+sig, "Go panic escaped: %s; %s", r.outcome, where)
 		return
